@@ -51,6 +51,29 @@ def main(jobfile: str) -> int:
         pickle.dump(out_pickles, f)
     with open(job["result"], "w") as f:
         json.dump(results, f)
+    # deterministic families (harness.gen.eqfamilies): keys, structure digests, equality of twin graphs, pickles
+    if job.get("families"):
+        import hashlib
+
+        from .gen import eqfamilies
+        fam_res, fam_pk = {}, {}
+        for name in job["families"]:
+            rows = {}
+            for lbl, g1, g2 in eqfamilies.build(name, job.get("tier", "quick")):
+                hs = eqterm.HeapSer(check_reflect=False)
+                hs.add(g1)
+                rows[lbl] = {"key": keyb(g1), "struct": hashlib.sha1(hs.wire().encode()).hexdigest()[:16]}
+                if g2 is not g1:
+                    rows[lbl].update(twin_eq=bool(g1 == g2) and bool(g2 == g1), twin_hash_eq=hash(g1) == hash(g2),
+                                     twin_key_eq=keyb(g2) == rows[lbl]["key"])
+                if name in job.get("pickle_families", []):
+                    hash(g1)
+                    fam_pk[f"{name}/{lbl}"] = pickle.dumps(g1)
+            fam_res[name] = rows
+        with open(job["result"] + ".families", "w") as f:
+            json.dump(fam_res, f)
+        with open(job["pickles_out"] + ".families", "wb") as f:
+            pickle.dump(fam_pk, f)
     return 0
 
 
